@@ -184,6 +184,14 @@ def run_case(case, ctx):
         ctx.reject('input_modified')
         return
     out, abserr, hout = np.asarray(out), np.asarray(abserr), np.asarray(hout)
+    then = [out.copy(), abserr.copy(), hout.copy()]
+    try:
+        rich(s_keep * 1.5 + 0.25, h_keep.copy())          # a later call on other data of the same shape
+    except Exception:
+        pass
+    if any(a.tobytes() != b.tobytes() for a, b in zip((out, abserr, hout), then)):
+        ctx.reject('returned_arrays_changed_by_a_later_call')
+        return
     m = N - used
     exp_shape = (m,) if one_d else (m, ncols)
     err_shapes = [exp_shape]
